@@ -35,7 +35,7 @@ CONFIG = {
     'thorough': {'shards': 32, 'cases': 1080, 'timeout': 5400, 'floor': 10800},
 }
 REQUIRED = ['addstore_steps', 'steps_reusing_sampler_object', 'crash_reopen_steps', 'steps', 'reuse_steps', 'results_compared', 'call_counters_checked', 'pool_batches_compared', 'context_refusals_checked',
-            'pool_memory', 'pool_disk', 'edit_steps', 'scheduled_steps', 'steps_loading_from_pool']
+            'pool_memory', 'pool_disk', 'edit_steps', 'scheduled_steps', 'steps_loading_from_pool', 'column_major_simulator_cases']
 
 KNOWN_KEY = 'stochastic-node-rerun-after-pool-loaded-prior'
 
@@ -60,6 +60,8 @@ def gen_cases(ctx):
         steps = []
         disk = bool(rng.random() < 0.35)
         reuse_sampler = bool(rng.random() < 0.5)
+        if spec['sim']['width'] > 1 and seed % 5 < 2:
+            spec['sim']['layout'] = 'F'        # the simulator returns column-major batches (same values)
         fixed_outputs = [str(x) for x in rng.choice(summ, size=int(rng.integers(0, len(summ) + 1)), replace=False)]
         # hostile motif on disk: save, run on, flush without saving again, reopen the earlier save, need more batches
         motif = ['fill', 'reopen', 'more', 'crash_reopen', 'more'] if (disk and rng.random() < 0.6) else None
@@ -184,6 +186,7 @@ def run_case(ctx, case):
     summ = [s['name'] for s in spec['summaries']]
     tmp = tempfile.mkdtemp(prefix='c05-')
     ctx.event('pool_disk' if case['disk'] else 'pool_memory')
+    ctx.event('column_major_simulator_cases', bool(case['spec']['sim'].get('layout')))
     pool = elfi.ArrayPool(list(case['stored']), name='p', prefix=tmp) if case['disk'] else elfi.OutputPool(list(case['stored']))
     version = {'summ': {}, 'disc': 0}
     m = _build(spec, version)            # the live model, edited in place with become()
